@@ -6,6 +6,7 @@ mod vmrun;
 mod e_vm;
 mod e_graph;
 mod e_types;
+mod e_sign;
 
 fn main() {
     // panics of the implementation are caught and reported as outcomes; keep stderr quiet
@@ -17,7 +18,9 @@ fn main() {
         "mapped" => e_asm::run_mapped(&a),
         "vm" => e_vm::run(&a),
         "graph" => e_graph::run(&a),
+        "sched" => e_graph::run_sched(&a),
         "types" => e_types::run(&a),
+        "sign" => e_sign::run(&a),
         other => { eprintln!("unknown engine {other}"); std::process::exit(2); }
     }
 }
